@@ -470,6 +470,43 @@ fn c02_wal_truncate_semantics() {
 // 25 GB) and on four concrete logs (900 s timeout): it is outside the claim; the
 // harnesses above use `pending_from`, the specification of that filter.
 
+//@ props: C02
+//@ tier: quick
+//@ funcs: index::wal::Wal::open, Wal::truncate, Wal::append_delete_doc_id, Wal::replay
+//@ symbolic: nothing - concrete companion of the restart/rollback part of c02_wal_truncate_semantics (ids "a", "b"; append cursor at 0 as for a file on disk): if a rollback leaves recovered operations in the log, the symbolic variant has to re-parse symbolic records behind them and may not finish; this one always does
+//@ bounds: 2 records, concrete ids
+//@ oracle: a rollback (truncate) issued right after a restart empties the log, and an operation queued afterwards is the only one recovered
+//@ assumes: as c02_wal_roundtrip_dcd
+#[kani::proof]
+#[kani::unwind(8)]
+#[kani::stub(std::backtrace::Backtrace::capture, stub_backtrace)]
+#[kani::stub(alloc::fmt::format, stub_format)]
+#[kani::stub(crc32fast::Hasher::internal_new_specialized, stub_crc_specialized)]
+#[kani::stub(serde_json::from_slice, stub_from_slice)]
+#[kani::stub(core::str::from_utf8, stub_from_utf8)]
+fn c02_wal_rollback_after_restart_concrete() {
+  let p = PathBuf::new();
+  let first = Arc::new(MemStorage::new_fs_like(Vec::new()));
+  let mut w1 = ok(Wal::open(first.clone(), &p)).unwrap();
+  assert!(ok(w1.append_delete_doc_id("a")).is_some());
+  assert!(ok(w1.sync()).is_some());
+  std::mem::forget(w1);
+  // restart: the log holds delete("a"); the new writer rolls back before queueing anything
+  let disk = Arc::new(MemStorage::new_fs_like(first.bytes().clone()));
+  let mut w2 = ok(Wal::open(disk.clone(), &p)).unwrap();
+  assert!(ok(w2.truncate()).is_some());
+  let after = replay_of(disk.as_ref());
+  assert!(after.is_empty(), "C02: rollback right after a restart leaves the recovered operations in the log (they would be re-applied)");
+  std::mem::forget(after);
+  assert!(ok(w2.append_delete_doc_id("b")).is_some());
+  assert!(ok(w2.sync()).is_some());
+  std::mem::forget(w2);
+  let last = replay_of(disk.as_ref());
+  assert!(last.len() == 1 && is_delete(&last[0], b'b'), "C02: after a rollback only the operations queued afterwards may be recovered");
+  std::mem::forget(last);
+  kani::cover!(first.bytes().len() == D, "one record was written before the restart");
+}
+
 fn corrupt_case(full: &[u8], pos: usize, a: u8, b: u8, mask: u8) {
   let mut bytes = full.to_vec();
   bytes[pos] ^= mask;
